@@ -163,8 +163,11 @@ func CallsString(cs []Call) string {
 // Dest records every call; if Next is set the call is forwarded and
 // CSel()/NSel() are answered by Next, else by a trivial model.
 type Dest struct {
-	Calls []Call
-	Next  ivg.Destination
+	// CountOnly: count the calls in N instead of storing them (very long inputs)
+	CountOnly bool
+	N         int64
+	Calls     []Call
+	Next      ivg.Destination
 	// NoPal disables copying palettes (saves 256 bytes per Reset).
 	NoPal bool
 	cSel  uint8
@@ -179,6 +182,10 @@ type Dest struct {
 func (d *Dest) ResetLog() { d.Calls = d.Calls[:0]; d.cSel, d.nSel, d.ReadBacks = 0, 0, 0 }
 
 func (d *Dest) add(c Call) {
+	if d.CountOnly {
+		d.N++
+		return
+	}
 	d.Calls = append(d.Calls, c)
 }
 
